@@ -800,7 +800,11 @@ pub fn gen_item(rng: &mut Rng, index: u64) -> Item {
                 None
             } else {
                 Some(loop {
-                    let t = format!("E{}", gen_text(rng, 12));
+                    let t = if rng.chance(1, 40) {
+                        format!("E{}", "long error text ".repeat(rng.range(250, 600)))
+                    } else {
+                        format!("E{}", gen_text(rng, 12))
+                    };
                     if t != "OK" {
                         break t;
                     }
@@ -819,7 +823,14 @@ pub fn gen_item(rng: &mut Rng, index: u64) -> Item {
             )
         }
         17 => {
-            let text = gen_text(rng, 24);
+            // one paste in sixty is long: reports have no length limit (4 KiB, 64 KiB boundaries)
+            let text = if rng.chance(1, 60) {
+                let n = *rng.pick(&[4000usize, 4089, 4090, 4096, 4097, 8192, 20_000, 65_536, 70_000]);
+                let unit = gen_text(rng, 12) + "x";
+                unit.chars().cycle().take(n).collect()
+            } else {
+                gen_text(rng, 24)
+            };
             (format!("\x1b[200~{text}\x1b[201~"), Ev::Paste(text))
         }
         18 => {
@@ -872,6 +883,22 @@ impl Prop for C04 {
     fn gen(rng: &mut Rng, _tier: Tier, index: u64) -> Case {
         let n = if index % 2 == 0 { 1 } else { rng.range(2, 12) };
         let mut items: Vec<Item> = (0..n).map(|i| gen_item(rng, index / 2 + i as u64)).collect();
+        // keys that are also the introducer of a longer sequence (alt+[ = CSI, alt+shift+o = SS3):
+        // unambiguous when a C0 control key follows, which can continue neither
+        if rng.chance(1, 5) {
+            let at = rng.range(0, items.len());
+            let (enc, name, mods) = if rng.bool() {
+                (b"\x1b[".to_vec(), KName::Char('[' as u32), 2)
+            } else {
+                (b"\x1bO".to_vec(), KName::Char('o' as u32), 2 | 1)
+            };
+            let letter = *rng.pick(b"abcdefghklnopqrstuvwxyz");
+            items.insert(
+                at,
+                Item { enc: vec![letter & 0x1f], ev: Ev::Key { name: KName::Char(letter as u32), mods: 4 } },
+            );
+            items.insert(at, Item { enc, ev: Ev::Key { name, mods } });
+        }
         // a bare ESC key is only unambiguous as the very last thing received
         if rng.chance(1, 16) {
             items.push(Item {
